@@ -325,7 +325,9 @@ func runC15(c *core.Ctx) error {
 			}
 			sort.Strings(diff)
 			cause := "repetition"
-			if strings.Join(ref.Order, " ") != strings.Join(bad.Order, " ") {
+			if ref2.Digest != ref.Digest {
+				cause = "same-command-repeated"
+			} else if strings.Join(ref.Order, " ") != strings.Join(bad.Order, " ") {
 				cause = "argument-order"
 			} else if ref.Procs != bad.Procs {
 				cause = "gomaxprocs"
